@@ -1,5 +1,546 @@
-//! C15 — not built yet.
+//! C15 — packing a horizontal list produces TeX's box dimensions and glue setting.
+//! Engine: BEX. Reference model: `reftex::kp::hpack` (tex.web §649-667, exact rationals).
+//! DESIGN.md §3 C15.
+
+mod conv;
+
+use boxworks::ds;
+use common::{GlueOrder, Scaled};
+use conv::{ch, disc, glue, kern, lig, pen};
+use reftex::kp;
+use serde_json::{json, Value};
+use vcore::{catch, Acc, Ctx, Level};
+
+const PT: i32 = 65536;
+const FONT: conv::Font = conv::Font { unit: PT };
+const MAX_DIMEN: i64 = (1 << 30) - 1;
+
+// ---------------------------------------------------------------------------------- menus
+
+fn hbox(h: i32, w: i32, d: i32, shift: i32) -> ds::Horizontal {
+    ds::Horizontal::HBox(ds::HBox { height: Scaled(h), width: Scaled(w), depth: Scaled(d), shift_amount: Scaled(shift), ..Default::default() })
+}
+fn vbox(h: i32, w: i32, d: i32, shift: i32) -> ds::Horizontal {
+    ds::Horizontal::VBox(ds::VBox { height: Scaled(h), width: Scaled(w), depth: Scaled(d), shift_amount: Scaled(shift), ..Default::default() })
+}
+fn rule(h: Scaled, w: i32, d: Scaled) -> ds::Horizontal {
+    ds::Horizontal::Rule(ds::Rule { height: h, width: Scaled(w), depth: d })
+}
+
+/// Every node kind of the property's quantifier except glue.
+fn non_glue_menu() -> Vec<ds::Horizontal> {
+    vec![
+        ch('a'),
+        ch('b'),
+        lig('f', "ff"),
+        kern(2 * PT, ds::KernKind::Normal),
+        kern(-2 * PT, ds::KernKind::Explicit),
+        rule(Scaled(6 * PT), PT, Scaled(5 * PT / 2)),
+        rule(ds::Rule::RUNNING, PT, ds::Rule::RUNNING),
+        hbox(9 * PT, 2 * PT, 3 * PT, 0),
+        hbox(9 * PT, 2 * PT, 3 * PT, 4 * PT),
+        hbox(9 * PT, 2 * PT, 3 * PT, -4 * PT),
+        vbox(2 * PT, 4 * PT, PT, 10 * PT),
+        vbox(2 * PT, -3 * PT, PT, -PT),
+        pen(5),
+        disc("a", "b", 0),
+    ]
+}
+
+/// All glue with stretch in `amounts` x 4 orders and shrink in `amounts` x 4 orders; the width
+/// cycles through 0, +1pt, -1pt.
+fn glue_cross(amounts: &[i32]) -> Vec<ds::Horizontal> {
+    let mut v = vec![];
+    let k = amounts.len() as u64 * 4;
+    for s in 0..k {
+        for t in 0..k {
+            let w = [0, PT, -PT][((s + t) % 3) as usize];
+            v.push(glue(w, amounts[(s / 4) as usize] * PT, conv::order(s % 4), amounts[(t / 4) as usize] * PT, conv::order(t % 4)));
+        }
+    }
+    v
+}
+/// Glue that stretches only, shrinks only, or has the same amount and order on both sides.
+fn glue_diag(amounts: &[i32], paired: bool) -> Vec<ds::Horizontal> {
+    let mut v = vec![];
+    let k = amounts.len() as u64 * 4;
+    for s in 0..k {
+        let (a, o) = (amounts[(s / 4) as usize] * PT, conv::order(s % 4));
+        v.push(glue(PT, a, o, 0, GlueOrder::Normal));
+        v.push(glue(0, 0, GlueOrder::Normal, a, o));
+        if paired {
+            v.push(glue(-PT, a, o, a, o));
+        }
+    }
+    v
+}
+fn mixed_menu() -> Vec<ds::Horizontal> {
+    use GlueOrder::*;
+    let mut m = non_glue_menu();
+    m.extend([
+        glue(PT, 2 * PT, Normal, 0, Normal),
+        glue(PT, 0, Normal, 2 * PT, Normal),
+        glue(0, 2 * PT, Fil, 0, Normal),
+        glue(0, -2 * PT, Fil, 0, Normal),
+        glue(PT, 0, Fil, 0, Fill),
+        glue(PT, 0, Normal, PT, Fill),
+        glue(-PT, 2 * PT, Normal, 2 * PT, Normal),
+        glue(0, 3 * PT, Fill, 0, Normal),
+        glue(PT, PT, Normal, 0, Filll),
+        glue(0, 0, Normal, -2 * PT, Normal),
+    ]);
+    m
+}
+fn boundary_menu() -> Vec<ds::Horizontal> {
+    use GlueOrder::*;
+    let m = MAX_DIMEN as i32;
+    vec![
+        ch('a'),
+        kern(m, ds::KernKind::Normal),
+        kern(-m, ds::KernKind::Normal),
+        glue(m / 2, m, Normal, m, Normal),
+        glue(-(m / 2), m, Fil, 1, Normal),
+        glue(0, 1, Normal, m, Filll),
+        glue(1, -m, Normal, -m, Normal),
+        hbox(m, 1, m, -m),
+        hbox(m, m, m, m),
+        rule(Scaled(m), m, Scaled(m)),
+    ]
+}
+
+// ---------------------------------------------------------------------------------- targets
+
+#[derive(Clone, Copy, PartialEq, Eq, Debug)]
+enum Target {
+    Exact(i64),
+    Additional(i64),
+}
+fn target_json(t: Target) -> Value {
+    match t {
+        Target::Exact(w) => json!(["exact", w]),
+        Target::Additional(w) => json!(["additional", w]),
+    }
+}
+fn target_from_json(v: &Value) -> Option<Target> {
+    let w = v.get(1)?.as_i64()?;
+    Some(if v.get(0)?.as_str()? == "exact" { Target::Exact(w) } else { Target::Additional(w) })
+}
+
+/// natural, natural -+ 1sp, the overfull boundary natural - shrink (-1, 0, +1 sp), natural + the
+/// dominating stretch, far away on both sides; `Additional` 0 and +-1.5pt.
+fn targets(p0: &kp::Packed) -> Vec<Target> {
+    let n = p0.natural;
+    let sn = p0.total_shrink[0];
+    let so = (1..4).rev().map(|o| p0.total_shrink[o]).find(|t| *t != 0).unwrap_or(sn);
+    let ts = (1..4).rev().map(|o| p0.total_stretch[o]).find(|t| *t != 0).unwrap_or(p0.total_stretch[0]);
+    let a = 3 * PT as i64 / 2;
+    let big = 100 * PT as i64;
+    let all = [
+        Target::Additional(0),
+        Target::Additional(a),
+        Target::Additional(-a),
+        Target::Exact(n - sn - 1),
+        Target::Exact(n - sn),
+        Target::Exact(n - sn + 1),
+        Target::Exact(n - 1),
+        Target::Exact(n),
+        Target::Exact(n + 1),
+        Target::Exact(n + ts),
+        Target::Exact(n - so),
+        Target::Exact(n + big),
+        Target::Exact(n - big),
+    ];
+    let mut out: Vec<Target> = vec![];
+    for t in all {
+        if !out.contains(&t) {
+            out.push(t);
+        }
+    }
+    out
+}
+
+// ---------------------------------------------------------------------------------- the check
+
+fn sign_name(s: kp::Sign) -> &'static str {
+    match s {
+        kp::Sign::Normal => "unset",
+        kp::Sign::Stretching => "stretching",
+        kp::Sign::Shrinking => "shrinking",
+    }
+}
+
+fn describe(p: &kp::Packed) -> String {
+    let set = match (p.sign, p.set) {
+        (kp::Sign::Normal, _) => "unset".to_string(),
+        (_, kp::Set::One) => "ratio 1 (overfull: shrink by exactly the shrinkability)".to_string(),
+        (_, kp::Set::Ratio { num, den }) => format!("ratio {num}/{den}"),
+        (_, kp::Set::Zero) => "ratio 0".to_string(),
+    };
+    format!("width={} height={} depth={} order={} {} {} [natural={} stretch={:?} shrink={:?}]", p.width, p.height, p.depth, p.order, sign_name(p.sign), set, p.natural, p.total_stretch, p.total_shrink)
+}
+
+fn check_pack(idx: u64, list: &[ds::Horizontal], mlist: &[kp::Node], t: Target, font: &dyn FontDyn, acc: &mut Acc) {
+    acc.eval();
+    let (spec, in_domain) = match t {
+        Target::Exact(w) => (kp::Pack::Exactly(w), w.abs() <= MAX_DIMEN),
+        Target::Additional(a) => (kp::Pack::Additional(a), a.abs() <= MAX_DIMEN),
+    };
+    let want = kp::hpack(mlist, spec);
+    if !in_domain || want.natural.abs() > MAX_DIMEN || want.width.abs() > MAX_DIMEN {
+        acc.skipped += 1; // TeX's dimensions are bounded by max_dimen (§421)
+        return;
+    }
+    let x = want.width - want.natural;
+    let has_glue = mlist.iter().any(|n| matches!(n, kp::Node::Glue(_)));
+    if x != 0 && has_glue {
+        acc.nontrivial();
+    }
+    // collision counters, all from the case and the model
+    let side = if x > 0 { Some((&want.total_stretch, true)) } else if x < 0 { Some((&want.total_shrink, false)) } else { None };
+    let mut hidden_higher = false;
+    if let Some((tot, stretch)) = side {
+        for o in want.order + 1..4 {
+            let present = mlist.iter().any(|n| matches!(n, kp::Node::Glue(g) if (if stretch { g.stretch_order } else { g.shrink_order }) == o));
+            if present && tot[o] == 0 {
+                hidden_higher = true;
+            }
+        }
+        if hidden_higher && tot[want.order] != 0 {
+            acc.count("higher_order_with_zero_total_above_the_setting_order");
+        }
+        if tot.iter().filter(|t| **t != 0).count() >= 2 {
+            acc.count("several_orders_with_nonzero_total");
+        }
+        if tot[want.order] < 0 {
+            acc.count("negative_total_at_setting_order");
+        }
+        if tot.iter().all(|t| *t == 0) && has_glue {
+            acc.count("glue_present_but_nothing_to_set");
+        }
+    }
+    if want.overfull {
+        acc.count("overfull");
+    }
+    if x < 0 && want.order == 0 && want.total_shrink[0] == -x && x != 0 {
+        acc.count("shrink_exactly_used_up");
+    }
+    let has_box = mlist.iter().any(|n| matches!(n, kp::Node::Box { .. } | kp::Node::Rule { .. }));
+    if mlist.iter().any(|n| matches!(n, kp::Node::Box { h, d, shift, .. } if *shift != 0 && (h - shift == want.height && want.height > 0 || d + shift == want.depth && want.depth > 0))) {
+        acc.count("shifted_box_decides_height_or_depth");
+    }
+
+    let case = || json!({"kind": "pack", "list": conv::list_json(list), "target": target_json(t), "font_unit": font.unit(), "text": conv::render(list)});
+    let pw = match t {
+        Target::Exact(w) => ds::PackWidth::Exact(Scaled(w as i32)),
+        Target::Additional(a) => ds::PackWidth::Additional(Scaled(a as i32)),
+    };
+    let got = match catch(|| font.pack(list.to_vec(), pw)) {
+        Ok(b) => b,
+        Err(p) => {
+            let cls = format!("FAIL panic [{}]", if has_box { "list contains a box or rule (class D17)" } else { "other" });
+            acc.class(&cls);
+            debug_class(&cls, &|| format!("{} | {}", vcore::compact(&case(), 900), p.describe()));
+            conv::witness::offer(acc, &cls, idx, || vcore::Fail { idx, case: case(), expected: describe(&want), observed: p.describe(), note: format!("{cls}: HBox::pack panicked") });
+            return;
+        }
+    };
+    let mut problems: Vec<String> = vec![];
+    if got.width.0 as i64 != want.width {
+        problems.push(format!("width {} != {}", got.width.0, want.width));
+    }
+    if got.height.0 as i64 != want.height {
+        problems.push(format!("height {} != {}", got.height.0, want.height));
+    }
+    if got.depth.0 as i64 != want.depth {
+        problems.push(format!("depth {} != {}", got.depth.0, want.depth));
+    }
+    if got.shift_amount.0 != 0 {
+        problems.push("shift_amount of a fresh box is not 0".into());
+    }
+    if got.list.as_slice() != list {
+        problems.push("the list inside the box is not the list that was packed".into());
+    }
+    let dims_bad = !problems.is_empty();
+    // natural width as the implementation saw it decides its own excess; judge the glue setting
+    // only against the model (a wrong natural width shows up above and again here)
+    let (gn, gd) = (got.glue_ratio.num.0 as i64, got.glue_ratio.den.0 as i64);
+    if got.glue_order as usize != want.order {
+        problems.push(format!("glue order {:?} != {}", got.glue_order, want.order));
+    }
+    let mut cls = String::new();
+    match (want.sign, want.set) {
+        (kp::Sign::Normal, _) => {
+            if gd == 0 || gn != 0 {
+                problems.push(format!("glue must be unset (ratio 0), got {gn}/{gd}"));
+            }
+            cls.push_str(if x == 0 { "natural" } else if want.overfull { "unset overfull" } else { "unset" });
+        }
+        (_, kp::Set::One) => {
+            if gd == 0 || gn.abs() != gd.abs() {
+                problems.push(format!("overfull box: the glue shrinks by exactly its shrinkability (|ratio| = 1), got {gn}/{gd}"));
+            }
+            // HBox has no glue_sign; on an overfull box only the magnitude is judged (see assume)
+            cls.push_str(if (gn < 0) != (gd < 0) { "overfull ratio=-1" } else { "overfull ratio=+1" });
+        }
+        (sign, kp::Set::Ratio { .. }) => {
+            let total = if sign == kp::Sign::Stretching { want.total_stretch[want.order] } else { want.total_shrink[want.order] };
+            // natural + ratio * total == width, exactly
+            if gd == 0 || gn * total != x * gd {
+                problems.push(format!("natural + ratio*total != width: ratio {gn}/{gd}, total {total}, excess {x}"));
+            } else {
+                let want_print = format!("{}", ds::GlueRatio { num: Scaled(x as i32), den: Scaled(total as i32) });
+                let got_print = format!("{}", got.glue_ratio);
+                if want_print != got_print {
+                    problems.push(format!("printed ratio {got_print} != {want_print}"));
+                }
+            }
+            cls.push_str(sign_name(sign));
+            cls.push_str(if total < 0 { " neg-total" } else { "" });
+        }
+        (_, kp::Set::Zero) => unreachable!("a set sign always comes with a ratio"),
+    }
+    if problems.is_empty() {
+        acc.class(&format!("ok {cls} order={}", want.order));
+        return;
+    }
+    let why = if has_box {
+        "list contains a box or rule (class D17)"
+    } else if hidden_higher {
+        "a higher glue order is present with zero total (class D13)"
+    } else {
+        "other"
+    };
+    let mut kinds: Vec<&str> = vec![];
+    if dims_bad {
+        kinds.push("dimensions");
+    }
+    if problems.iter().any(|p| p.starts_with("glue order")) {
+        kinds.push("glue order");
+    }
+    if problems.iter().any(|p| p.starts_with("glue must be unset") || p.starts_with("natural + ratio") || p.starts_with("overfull box") || p.starts_with("printed ratio")) {
+        kinds.push("glue set");
+    }
+    let cls = format!("FAIL {} [{why}]", kinds.join(" + "));
+    acc.class(&cls);
+    let observed = || format!("width={} height={} depth={} order={:?} ratio={}/{} (prints {})", got.width.0, got.height.0, got.depth.0, got.glue_order, gn, gd, got.glue_ratio);
+    debug_class(&cls, &|| format!("{} | want {} | got {} | {}", vcore::compact(&case(), 900), describe(&want), observed(), problems.join("; ")));
+    conv::witness::offer(acc, &cls, idx, || vcore::Fail { idx, case: case(), expected: describe(&want), observed: observed(), note: format!("{cls}: {}", problems.join("; ")) });
+}
+
+/// Triage aid: `C15_DEBUG_CLASS=<substring>` prints the first 8 cases of the matching outcome classes.
+fn debug_class(cls: &str, text: &dyn Fn() -> String) {
+    use std::sync::atomic::{AtomicU32, Ordering};
+    static N: AtomicU32 = AtomicU32::new(0);
+    if let Ok(want) = std::env::var("C15_DEBUG_CLASS") {
+        if cls.contains(&want) && N.fetch_add(1, Ordering::Relaxed) < 8 {
+            eprintln!("DEBUG {cls}: {}", text());
+        }
+    }
+}
+
+/// `HBox::pack` is generic over the font; the harness uses two fonts (lattice, cmr10 for self-validation).
+trait FontDyn: Sync {
+    fn pack(&self, list: Vec<ds::Horizontal>, pw: ds::PackWidth) -> ds::HBox;
+    fn metrics(&self, c: char) -> Option<(i64, i64, i64)>;
+    fn unit(&self) -> i32;
+}
+impl FontDyn for conv::Font {
+    fn pack(&self, list: Vec<ds::Horizontal>, pw: ds::PackWidth) -> ds::HBox {
+        ds::HBox::pack(self, list, pw)
+    }
+    fn metrics(&self, c: char) -> Option<(i64, i64, i64)> {
+        conv::font_fn(self.unit)(c)
+    }
+    fn unit(&self) -> i32 {
+        self.unit
+    }
+}
+
+fn check_list(list_idx: u64, list: &[ds::Horizontal], acc: &mut Acc) {
+    let mlist = match conv::to_model(list, &|c| FONT.metrics(c)) {
+        Ok(m) => m,
+        Err(_) => {
+            acc.skipped += 1;
+            return;
+        }
+    };
+    // TeX adds widths and glue totals in 32-bit integers without any check (§651-656); a list on
+    // which one of those running sums leaves the integer range is outside TeX's own domain
+    let (mut x, mut ts, mut tk) = (0i64, [0i64; 4], [0i64; 4]);
+    for n in &mlist {
+        match n {
+            kp::Node::Char { w, .. } | kp::Node::Box { w, .. } | kp::Node::Rule { w, .. } | kp::Node::Kern { w, .. } | kp::Node::Math { w, .. } => x += w,
+            kp::Node::Glue(g) => {
+                x += g.w;
+                ts[g.stretch_order] += g.stretch;
+                tk[g.shrink_order] += g.shrink;
+            }
+            _ => {}
+        }
+        if x.abs() > reftex::arith::INFINITY || ts.iter().chain(tk.iter()).any(|t| t.abs() > reftex::arith::INFINITY) {
+            acc.skipped += 1;
+            return;
+        }
+    }
+    let p0 = kp::hpack(&mlist, kp::Pack::Additional(0));
+    for (k, t) in targets(&p0).into_iter().enumerate() {
+        check_pack(list_idx * 16 + k as u64, list, &mlist, t, &FONT, acc);
+    }
+    if list_idx % 50021 == 11 {
+        acc.sample(list_idx, || json!({"list": conv::render(list), "natural_pack": describe(&p0)}));
+    }
+}
+
+// ---------------------------------------------------------------------------------- self-validation
+
+/// Binds `kp::hpack` (and the model's TFM reader) to TeX: every line of the repository's
+/// TeX-produced paragraphs (boxworks-knuthplass/testdata/*_want.txt, generated by real TeX with
+/// cmr10, see the README there) is re-packed by the *model* to the recorded width; height, depth,
+/// glue order and the printed glue ratio must be the recorded ones.
+fn self_validate(ctx: &mut Ctx) -> u64 {
+    let repo = std::env::var("VERIF_REPO").unwrap_or_else(|_| "/repo".into());
+    let tfm = match std::fs::read(format!("{repo}/crates/tfm/corpus/computer-modern/cmr10.tfm")) {
+        Ok(b) => b,
+        Err(e) => {
+            ctx.machinery_error(format!("self-validation: cannot read cmr10.tfm: {e}"));
+            return 0;
+        }
+    };
+    let Some(metrics) = kp::tfm_metrics(&tfm) else {
+        ctx.machinery_error("self-validation: the model's TFM reader rejects cmr10.tfm");
+        return 0;
+    };
+    // cmr10: 'a' is 5.00002pt wide, 4.30554pt high (The TeXbook, and tex.rs: \hbox(4.30554+0.0))
+    if metrics.get(&b'a') != Some(&(327681, 282168, 0)) {
+        ctx.machinery_error(format!("self-validation: cmr10 'a' metrics {:?}", metrics.get(&b'a')));
+    }
+    let mut lines = 0u64;
+    // tests wolf_hall_3in, wolf_hall_1in (overfull lines), farewell_to_arms_looseness_plus_1, wolf_hall_ragged_right (rightskip stretch), alice_paragraph_2_10in
+    for name in ["wolf_hall_3in_want.txt", "wolf_hall_1in_want.txt", "farewell_to_arms_looseness_plus_1_want.txt", "wolf_hall_ragged_right.txt", "alice_paragraph_2_want.txt", "wolf_hall_left_skip_want.txt"] {
+        let path = format!("{repo}/crates/boxworks-knuthplass/testdata/{name}");
+        let src = match std::fs::read_to_string(&path) {
+            Ok(s) => s,
+            Err(e) => {
+                ctx.machinery_error(format!("self-validation: cannot read {path}: {e}"));
+                continue;
+            }
+        };
+        let parsed = match boxworks::lang::parse_horizontal_list(&src) {
+            Ok(p) => p,
+            Err(_) => {
+                ctx.machinery_error(format!("self-validation: cannot parse {path}"));
+                continue;
+            }
+        };
+        for top in &parsed {
+            let ds::Horizontal::VBox(v) = top else { continue };
+            for item in &v.list {
+                let ds::Vertical::HBox(line) = item else { continue };
+                let ml = match conv::to_model(&line.list, &|c| metrics.get(&(c as u32 as u8)).copied()) {
+                    Ok(m) => m,
+                    Err(e) => {
+                        ctx.machinery_error(format!("self-validation {name}: {e}"));
+                        continue;
+                    }
+                };
+                let p = kp::hpack(&ml, kp::Pack::Exactly(line.width.0 as i64));
+                lines += 1;
+                let mut bad = vec![];
+                if p.height != line.height.0 as i64 || p.depth != line.depth.0 as i64 {
+                    bad.push(format!("height/depth {}/{} recorded {}/{}", p.height, p.depth, line.height.0, line.depth.0));
+                }
+                // TeX prints print_glue(round(unity*g)); the recorded text was parsed to num/2^16
+                let rec = (line.glue_ratio.num.0 as i64).abs();
+                let model_ratio_scaled = match (p.sign, p.set) {
+                    (kp::Sign::Normal, _) => 0.0,
+                    (_, kp::Set::One) => 65536.0,
+                    (_, kp::Set::Ratio { num, den }) => (num as f64 / den as f64).abs() * 65536.0,
+                    (_, kp::Set::Zero) => 0.0,
+                };
+                if line.glue_ratio.den.0 != 65536 || (model_ratio_scaled - rec as f64).abs() > 1.0 {
+                    bad.push(format!("glue set {} (x 2^16) recorded {}", model_ratio_scaled, rec));
+                }
+                // §186 prints the order only together with a non-zero glue set
+                if rec != 0 && p.order != line.glue_order as usize {
+                    bad.push(format!("order {} recorded {:?}", p.order, line.glue_order));
+                }
+                if !bad.is_empty() {
+                    ctx.machinery_error(format!("self-validation {name} line {lines}: model hpack disagrees with TeX's recorded box: {}", bad.join("; ")));
+                }
+            }
+        }
+    }
+    if lines < 50 {
+        ctx.machinery_error(format!("self-validation replayed only {lines} recorded lines"));
+    }
+    lines
+}
+
+// ---------------------------------------------------------------------------------- main
+
+fn seq_family(ctx: &mut Ctx, family_no: u64, name: &str, what: &str, menu: &(dyn Fn() -> Vec<ds::Horizontal> + Sync), min_len: u32, max_len: u32) {
+    let k = menu().len() as u64;
+    let below: u64 = if min_len == 0 { 0 } else { vcore::strings_upto(k, min_len - 1) };
+    let n = vcore::strings_upto(k, max_len) - below;
+    // ds::Horizontal holds Rc's and is not Sync: every range of the index space rebuilds the menu
+    conv::witness::run_family(ctx, family_no, name, &format!("every list of {min_len}..={max_len} nodes over {what} ({k} items); per list: Additional(0, +-1.5pt), Exact(natural-shrink-1sp, -shrink, -shrink+1sp, natural-1sp, natural, natural+1sp, natural+stretch, natural-+100pt)"), n, |r, acc| {
+        let menu = menu();
+        for i in r {
+            let list: Vec<ds::Horizontal> = vcore::nth_string(k, i + below).into_iter().map(|j| menu[j as usize].clone()).collect();
+            check_list(i, &list, acc);
+        }
+    });
+}
+
 fn main() {
-    eprintln!("c15: check not built yet");
-    std::process::exit(2);
+    let mut ctx = Ctx::new("C15", Level::Exploration);
+    ctx.assume("domain: characters, ligatures, kerns, rules, hboxes/vboxes with shifts, penalties, discretionaries, glue; marks, inserts, adjusts, math nodes, whatsits and leaders are outside the property's quantifier (the code has todo!() there)");
+    ctx.assume("every character is in the font; all dimensions, the natural width and the target are within TeX's max_dimen (2^30-1 sp); every running sum of widths and of per-order stretch/shrink stays inside TeX's 32-bit integers (TeX adds them unchecked, §651-656)");
+    ctx.assume("ds::HBox has no glue_sign field: the sign is carried by glue_ratio.num/den (negative = shrinking, the way boxworks::tex::parse_glue_set builds it) and is judged through the exact identity natural + ratio*total(order) = width on every box whose glue is set and which TeX would not report as overfull; on an overfull box (TeX: glue_set 1.0, sign shrinking) only |ratio| = 1 is required, because the crate's own equality and box language are sign-blind (the sign observed there is recorded as an outcome class)");
+    ctx.assume("the printed form of a ratio is compared through the crate's own Display (f32 based, TeX §186 uses a float as well); the exact rational identity is what decides");
+    ctx.assume("a running rule dimension is ds::Rule::RUNNING (-2^31) in the crate and null_flag (-2^30) in TeX; the conversion maps one to the other");
+
+    if let Some((_fam, case)) = ctx.replay_case() {
+        let mut acc = Acc::default();
+        let (Some(list), Some(t)) = (conv::list_from_json(&case["list"]), target_from_json(&case["target"])) else {
+            eprintln!("replay: cannot decode the case");
+            std::process::exit(2);
+        };
+        match conv::to_model(&list, &|c| FONT.metrics(c)) {
+            Ok(ml) => check_pack(0, &list, &ml, t, &FONT, &mut acc),
+            Err(e) => {
+                eprintln!("replay: {e}");
+                std::process::exit(2);
+            }
+        }
+        conv::witness::collect(&mut acc, 0);
+        ctx.finish_replay(acc);
+    }
+
+    let validated = self_validate(&mut ctx);
+    ctx.extra("model_self_validation", json!({"tex_recorded_lines_repacked_by_the_model": validated, "source": "crates/boxworks-knuthplass/testdata/*_want.txt (real TeX, cmr10)"}));
+
+    let quick = ctx.quick();
+    // F1: every node kind mixed with representative glue
+    seq_family(&mut ctx, 0, "nodes-mixed", "the node menu: 2 chars, ligature, +-kern, fixed and running rule, hbox shift 0/+/-, vbox shift +/- (one with negative width), penalty, discretionary, 10 glues (finite, fil, fill, filll, zero amount at a high order, negative)", &mixed_menu, 0, if quick { 4 } else { 5 });
+    // F2: glue combinations, full cross of stretch x shrink
+    if quick {
+        seq_family(&mut ctx, 1, "glue-cross", "all glue with stretch in {0,+2pt,-2pt} x {normal,fil,fill,filll} and shrink in the same 12 values (144 glues, width cycling 0/+1pt/-1pt)", &|| glue_cross(&[0, 2, -2]), 1, 3);
+    } else {
+        seq_family(&mut ctx, 1, "glue-cross", "all glue with stretch in {0,+2pt,-2pt,+3pt} x {normal,fil,fill,filll} and shrink in the same 16 values (256 glues, width cycling 0/+1pt/-1pt)", &|| glue_cross(&[0, 2, -2, 3]), 1, 3);
+    }
+    // F3: longer glue lists over stretch-only / shrink-only / paired glue
+    seq_family(&mut ctx, 2, "glue-diag-4", "glue that only stretches, only shrinks, or does both with one amount and order; amounts {0,+2pt,-2pt} x 4 orders (36 glues)", &|| glue_diag(&[0, 2, -2], true), 4, 4);
+    seq_family(&mut ctx, 3, "glue-diag-deep", "glue that only stretches or only shrinks; amounts {0,+2pt,-2pt,+3pt} x 4 orders (32 glues)", &|| glue_diag(&[0, 2, -2, 3], false), if quick { 4 } else { 5 }, if quick { 4 } else { 5 });
+    // F4: dimensions at max_dimen
+    seq_family(&mut ctx, 4, "max-dimen", "kerns, glue, boxes and rules with dimensions +-(2^30-1) (cases whose natural width or target leaves max_dimen are skipped)", &boundary_menu, 1, 3);
+
+    ctx.require("higher_order_with_zero_total_above_the_setting_order", "a glue order above the one TeX sets is present in the list with zero or cancelling total (the D13 situation)");
+    ctx.require("several_orders_with_nonzero_total", "two or more orders have a non-zero total on the side that is set");
+    ctx.require("negative_total_at_setting_order", "the total that sets the glue is negative");
+    ctx.require("glue_present_but_nothing_to_set", "the list has glue but every total on the needed side is zero (box left unset)");
+    ctx.require("overfull", "TeX would call the box overfull");
+    ctx.require("shrink_exactly_used_up", "the target equals natural width minus the finite shrinkability (ratio exactly 1, not overfull)");
+    ctx.require("shifted_box_decides_height_or_depth", "a shifted box determines the height or depth of the result");
+    ctx.finish("one evaluation = one HBox::pack call compared field by field with reftex::kp::hpack (dimensions, glue order, exact rational glue set, printed ratio); non-trivial = the target differs from the natural width and the list contains glue");
 }
